@@ -190,6 +190,7 @@ KANI = {
         K('market_agents::helper_sell_limit_market', 'complete', 'place_sell_limit_order_market: own asset, price >= mid, configured volume and trader, on grid unless clamped', ['C16.sell_above_mid']),
         K('market_agents::noise_market_update_rules', 'bounded', 'NoiseMarketAgent::update: documented number of instructions for p in {0} u [1, inf), configured volume, own trader id, own asset', ['C16.activity'], bound='one trader, one call; unwind 12'),
         K('momentum_memory::momentum_carried_over', 'bounded', 'MomentumAgent: with decay 1/2 a move followed by a flat step still trades once (activity follows the documented probability computed from the carried-over signal)', ['C16.activity'], bound='one trader, three calls'),
+        K('market_agents::momentum_market_direction', 'bounded', 'MomentumMarketAgent with order ratio 0: exactly one MARKET order (no limit order: probability 0 never happens, probability >= 1 always happens) in the direction of the move', ['C16.activity'], bound='one trader, two calls; unwind 12'),
         K('proofs::round_clamp_on_grid', 'complete', 'round_price_up for EVERY finite request is on the grid (expected to fail: known finding, clamp to Price::MAX)', ['C16.clamp_finding']),
         K('agents::helper_sell_limit_always_on_grid', 'complete', 'place_sell_limit_order with an arbitrary finite draw submits an on-grid price (expected to fail: known finding)', ['C16.clamp_finding']),
     ],
@@ -198,10 +199,24 @@ KANI = {
         K('agents::momentum_rising_buys', 'bounded', 'rising mid: exactly one BUY market order (plus one buy limit order when the order ratio is >= 1)', ['C17.buys_when_rising'], bound='as above; rise in 6..=1000'),
         K('agents::momentum_flat_nothing', 'bounded', 'unchanged mid (M == 0): nothing is submitted', ['C17.flat'], bound='as above'),
         K('market_agents::momentum_market_direction', 'bounded', 'MomentumMarketAgent::update twice (integer and half-tick mids): falling mid -> one SELL, rising mid -> one BUY, own asset', ['C17.market_variant'], bound='one trader, two calls, decay 1; unwind 12'),
+        K('market_agents::momentum_market_carried_over', 'bounded', 'multi-asset agent, decay 1/2: a move of 32 followed by a pull-back of 4 still trades once in the direction of M (not of the last price change)', ['C17.recursion'], bound='one trader, three calls'),
         K('momentum_memory::momentum_carried_over', 'bounded', 'decay 1/2: a move of 32 followed by a flat step still trades once in the direction of the move (M carried over by the documented recursion)', ['C17.recursion'], bound='one trader, three calls'),
         K('momentum_memory::momentum_zero_signal_resets', 'bounded', 'decay 1/2: when M returns to exactly zero the following flat step submits nothing', ['C17.recursion'], bound='one trader, four calls'),
     ],
 }
+
+
+PANIC_FNS = ('unwrap_failed', 'expect_failed', 'panicking::panic', 'panic_bounds_check', 'panic_fmt', 'panic_display', 'panic_nounwind', 'assert_failed', 'begin_panic')
+
+
+def kani_genuine(fc):
+    """A failed CBMC check counts when it lies in the harness or in the repository, or when it is a reachable PANIC (unwrap / expect / explicit panic /
+    bounds check) wherever the panicking function lives - a dependency aborting on values the repository passed to it aborts the simulation.
+    Failed memory-safety checks inside std (`__rust_dealloc`, `drop_in_place`, `ptr::write`: measured to appear spuriously under partial unwinding) do not."""
+    loc = fc['location']
+    if 'src/lib.rs' in loc or 'crates/' in loc:
+        return True
+    return any(p in fc['check'] or p in loc for p in PANIC_FNS)
 
 
 def kani_version():
@@ -304,13 +319,19 @@ def run_kani(pid, seed, tier):
         else:
             r['status'] = 'failed'
             # failures outside the harness and outside the repository (std / Kani library internals) are undecided, never an alarm
-            inside = [f for f in fails if ('src/lib.rs' in f['location'] or 'crates/' in f['location'])]
+            inside = [f for f in fails if kani_genuine(f)]
             if not inside:
-                raise Undecided('harness %s fails without a failed check inside the harness or the repository (library internals / unwinding / resources): %s' % (h['harness'], fails[:1]))
+                # only failures inside library internals (measured: spurious memory-safety failures under partial unwinding): this harness is undecided
+                r['status'] = 'undecided'
+                r['undecided_reason'] = 'fails without a failed check inside the harness or the repository and without a reachable panic (library internals / unwinding / resources): %s' % (fails[:1],)
         r['result_from_cache'] = False
         out.append(r)
+    und = [r for r in out if r['status'] == 'undecided']
+    if und and not any(r['status'] == 'failed' for r in out):
+        raise Undecided('harness %s %s' % (und[0]['harness'], und[0]['undecided_reason']))
     os.makedirs(CACHE, exist_ok=True)
-    json.dump(out, open(cp, 'w'))
+    if not und:
+        json.dump(out, open(cp, 'w'))
     return out
 
 
@@ -327,6 +348,7 @@ PROPS = {
     'C06': {'legs': [V('book')], 'design': '§5 C06'},
     'C07': {'legs': [V('book'), V('market'),
                      R('truncation', ['truncate'], 'snapshots of 4 generated states, compact and pretty: every byte prefix must be rejected by load_json with Err (no panic, no Ok)'),
+                     R('market_round_trip', ['market-snapshot'], '60 random two-asset markets (per-asset ticks, trading toggled, crossed books while trading is off): in-memory and through-file (compact / pretty, written over a longer existing file) reloads show the same orders, trades and market data and stay equal under a 10-operation continuation'),
                      R('file_round_trip', ['search', '--prop', 'C07', '--depth', '2', '--random', '400', '--len', '40', '--budget', '30'],
                        'all histories of depth <= 2 over the small alphabet plus 400 random histories of 40 operations with in-memory and through-file reloads (the file is written over an existing longer file): every view equal after reload and under the continuation')],
             'design': '§5 C07'},
@@ -343,11 +365,11 @@ PROPS = {
                                   note='modify_order with the unconditional grid clause (expected refutation, known finding)')], 'design': '§5 C12'},
     'C13': {'legs': [V('book'), V('market'), V('env'), V('menv')], 'design': '§5 C13'},
     'C14': {'legs': [V('market'), V('menv')], 'design': '§5 C14'},
-    'C16': {'legs': [], 'design': '§5 C16'},
+    'C16': {'legs': [V('agents')], 'design': '§5 C16'},
     'C17': {'legs': [], 'design': '§5 C17'},
     'C18': {'legs': [V('py'), V('book')], 'design': '§5 C18'},
     'C20': {'legs': [{'engine': 'derive'}], 'design': '§5 C20'},
-    'C19': {'legs': [V('py')], 'design': '§5 C19'},
+    'C19': {'legs': [V('py'), V('env')], 'design': '§5 C19'},
 }
 
 
@@ -494,9 +516,11 @@ def decide_verus_leg(pid, leg, tier, seed, log):
         unstable = [k for k, v in confirm.items() if not all(v)]
         if unstable:
             raise Undecided('unstable proof (fails under seed 0, passes under another seed): %s' % ', '.join(unstable))
+    lost_hints = None
     if u.meta['warnings'] and refuted:
-        raise Undecided('hint anchors were lost in the source (%s) and obligations then failed: the proof text no longer matches the code; not decided'
-                        % '; '.join(u.meta['warnings']))
+        # the proof text no longer matches the code: the refutation alone is not trusted.  It is reported only if the replay runner
+        # then exhibits a failing input on the real code (main); otherwise the run is undecided.
+        lost_hints = 'hint anchors were lost in the source (%s) and obligations then failed: the proof text no longer matches the code' % '; '.join(u.meta['warnings'])
     if infra:
         related = [i for i in infra]
         raise Undecided('; '.join(related[:5]))
@@ -505,7 +529,7 @@ def decide_verus_leg(pid, leg, tier, seed, log):
         fs = res['functions'].get(o['fn'])
         if fs:
             fn_stats[o['fn']] = {'ms': fs['ms'], 'rlimit': fs['rlimit']}
-    return {'unit': u, 'res': res, 'mine': mine, 'pre': pre, 'refuted': refuted, 'fn_stats': fn_stats,
+    return {'unit': u, 'res': res, 'mine': mine, 'pre': pre, 'refuted': refuted, 'fn_stats': fn_stats, 'lost_hints': lost_hints,
             'assumptions': scan_assumptions(u.gen_lines, u.meta)}
 
 
@@ -612,7 +636,7 @@ def main():
     for k in kani_res:
         if k['status'] == 'failed':
             for fc in k['failed_checks']:
-                if 'src/lib.rs' in fc['location'] or 'crates/' in fc['location']:
+                if kani_genuine(fc):
                     refuted.append({'obligation': 'kani/' + k['harness'], 'full': 'kani/%s|%s' % (k['harness'], fc['description']), 'fn': k['harness'],
                                     'detail': {'message': 'Kani: ' + fc['description'], 'fn': k['harness'], 'kind': k['kind'], 'bound': k.get('bound'),
                                                'where': [{'label': 'failed check', 'origin': fc['location'], 'text': fc['check'], 'primary': True}]}})
@@ -645,6 +669,13 @@ def main():
     if new:
         path = write_replay(pid, new, legs)
         wit = witness_search(pid, new, a.tier, seed, path)
+        lost = [i['lost_hints'] for i in legs if i.get('lost_hints') and any(f in i['refuted'] for f in new)]
+        if lost and not wit:
+            print('UNDECIDED property=%s: %s; no failing input was found on the real code either' % (pid, lost[0]))
+            write_evidence(pid, a.tier, seed, t0, [], notes, undecided=lost[0])
+            return 2
+        if lost:
+            print('note: %s - reported because the replay runner found a failing input on the real code' % lost[0])
         for f in new:
             print('refuted obligation %s :: %s' % (f['full'], f['detail']['message']))
             for w in f['detail']['where']:
@@ -784,7 +815,7 @@ def write_evidence(pid, tier, seed, t0, legs, notes, refuted=(), new=(), undecid
     kbounded = [k for k in kani if k['kind'] == 'bounded']
     obligations += len(kcomplete)
     discharged += len([k for k in kcomplete if k['status'] == 'successful'])
-    bounded = list(bounded) + [{'name': 'kani/' + k['harness'], 'label': 'bounded', 'bound': k['bound'], 'claim': k['text'], 'status': 'passed' if k['status'] == 'successful' else 'failed',
+    bounded = list(bounded) + [{'name': 'kani/' + k['harness'], 'label': 'bounded', 'bound': k['bound'], 'claim': k['text'], 'status': {'successful': 'passed', 'failed': 'failed'}.get(k['status'], 'undecided'),
                                 'seconds': k['seconds'], 'checks': k['checks'], 'cmd': k['cmd'], 'result_from_cache': k.get('result_from_cache')} for k in kbounded]
     samples = []
     fns = {}
